@@ -223,11 +223,28 @@ def r2_dedup(ctx):
                           f'{f.name} records Subtoken(ctx.getText(), DECORATION) through the guarded helper',
                           f'{f.name} does not record the signifier text through {helper.name}')
         ctx.expect_count('R2', 'decoration handlers', n_h, 2)
-    an = base.methods.get('addNoteRest')
-    okn = an is not None and any(isinstance(n, ast.Call) and F.constructed_class(ctx, n, an) is ctx.prog.cls(NRT)
-                                 and len(n.args) == 3 and src(n.args[2]) == 'self.decorations' for n in walk_local(an.node))
-    ctx.check(okn, 'R2', an.loc if an else base.loc, f'{LST}.addNoteRest', 'note-receives-decorations',
-              'the note token receives the de-duplicated decoration list')
+    note_receives_decorations(ctx, 'R2')
+
+
+def note_receives_decorations(ctx, rule):
+    """Every NoteRestToken the listener builds receives the WHOLE decoration list: de-duplication works on the whole cell
+    (the whole chord), so a note that is given only a part of the list can lose a signifier it was written with."""
+    nrt = ctx.prog.cls(NRT)
+    init = ctx.prog.find_method(nrt, '__init__')
+    n = 0
+    for c in listener_classes(ctx):
+        for f in c.methods.values():
+            for call in walk_local(f.node):
+                if isinstance(call, ast.Call) and F.constructed_class(ctx, call, f) is nrt:
+                    n += 1
+                    b = F.bind_args(call, init, True)
+                    d = b.get('decoration_subtokens')
+                    ctx.check(d is not None and src(d) == 'self.decorations', rule, f'{f.module.relpath}:{call.lineno}', f.qualname,
+                              'note-receives-decoration-subset',
+                              'the note token receives the whole de-duplicated decoration list of the cell',
+                              f'the note token receives `{src(d)[:60]}`, not the whole decoration list: because duplicates are removed '
+                              f'against the whole cell, a chord note that repeats a signifier of an earlier note (`[2c [2e`) loses it')
+    ctx.expect_count(rule, 'NoteRestToken constructions in the listener', n, 1)
 
 
 # --------------------------------------------------------------------------- R3
